@@ -612,7 +612,7 @@ Qed.
 (* ------------------------------------------------------------------ wf_cfg is needed *)
 (* the guard released before the side-effects append: frames out of order *)
 Definition bad_cfg_release_early : cfg := {|
-  permits := 1; shared_lock := true; stray_sites := 0;
+  permits := 1; shared_lock := true; stray_sites := 0; abandon_kills := true;
   class_default_lock := true; class_listed := class_listed ref_cfg;
   registered := registered ref_cfg; aliases := aliases ref_cfg;
   span_tool := [OAcquire; ORun; OEmit; ORelease; OAppend];
@@ -622,7 +622,7 @@ Definition bad_cfg_release_early : cfg := {|
 
 (* the tool started before the guard is taken: two mutating calls in progress *)
 Definition bad_cfg_acquire_late : cfg := {|
-  permits := 1; shared_lock := true; stray_sites := 0;
+  permits := 1; shared_lock := true; stray_sites := 0; abandon_kills := true;
   class_default_lock := true; class_listed := class_listed ref_cfg;
   registered := registered ref_cfg; aliases := aliases ref_cfg;
   span_tool := [ORun; OAcquire; OEmit; OAppend; ORelease];
@@ -667,7 +667,7 @@ Qed.
 
 (* an allow list that forgets the alias `shell`: the obligation fails *)
 Definition bad_cfg_alias_forgotten : cfg := {|
-  permits := 1; shared_lock := true; stray_sites := 0;
+  permits := 1; shared_lock := true; stray_sites := 0; abandon_kills := true;
   class_default_lock := false; class_listed := [s_write; s_apply_patch; s_bash];
   registered := registered ref_cfg; aliases := aliases ref_cfg;
   span_tool := span_tool ref_cfg; span_ro := span_ro ref_cfg; span_loop_tool := span_loop_tool ref_cfg;
@@ -675,7 +675,7 @@ Definition bad_cfg_alias_forgotten : cfg := {|
 |}.
 
 Definition good_cfg_allow_list : cfg := {|
-  permits := 1; shared_lock := true; stray_sites := 0;
+  permits := 1; shared_lock := true; stray_sites := 0; abandon_kills := true;
   class_default_lock := false; class_listed := [s_write; s_apply_patch; s_bash; s_shell];
   registered := registered ref_cfg; aliases := aliases ref_cfg;
   span_tool := span_tool ref_cfg; span_ro := span_ro ref_cfg; span_loop_tool := span_loop_tool ref_cfg;
